@@ -261,7 +261,6 @@ func (ix *BM25SearchIndex) Remove(id uint32) error {
 	_, exists := ix.docTokens[id]
 	alreadyDeleted := ix.deletedDocs.Contains(id)
 	ix.mu.RUnlock()
-	verifPoint("bm25:remove:window")
 
 	// Fast-fail validation outside of write lock
 	if !exists {
